@@ -8,6 +8,7 @@ import (
 	"context"
 	"errors"
 	"fmt"
+	"os"
 	"sort"
 	"strconv"
 	"strings"
@@ -276,35 +277,80 @@ func routeeIndex(name string) int {
 	return n
 }
 
+// setupRetries bounds how often newPool rebuilds a pool whose routees were spawned outside the actor tree.
+const setupRetries = 8
+
+// newPool spawns a router with n routees and checks that the pool is the well-formed starting state the
+// cases assume: the router's map holds exactly the n routees <pool>Routee<i>, and each of them is
+// registered in the actor tree (ActorOf resolves its name to the same PID). The second part is not about
+// routing: a routee that SpawnChild returned but that is not registered is not stopped with the router and
+// its failures are not escalated to it, so the `ch` cases (crash -> escalate -> ring rebuilt) and close()
+// would not do what the case says. goakt could produce such a pool before its fix "PostStart is sent once
+// the actor is attached to the tree" (the router's PostStart handler, which spawns the routees, could run
+// before Spawn had registered the router itself; the insertion error "parent pid does not exist" was
+// ignored; hit once by this harness on a cold, loaded machine: DESIGN.md I.6, finding C09-F4). Such a pool is
+// discarded and rebuilt, with a note on stderr; anything else wrong with the setup is an error.
 func newPool(n int, opts ...actor.RouterOption) (*pool, error) {
+	for attempt := 0; ; attempt++ {
+		p, unregistered, err := tryPool(n, opts...)
+		if err != nil || unregistered == "" {
+			return p, err
+		}
+		fmt.Fprintf(os.Stderr, "verif c21: pool %s discarded: routee %s is running and in the router's map but not registered in the actor tree (spawn/attach race, the subject of C09 not C21)\n", p.name, unregistered)
+		for _, rp := range p.routees {
+			_ = rp.Shutdown(context.Background())
+		}
+		p.close()
+		if attempt >= setupRetries {
+			return nil, fmt.Errorf("routee %s not registered in the actor tree (after %d rebuilt pools)", unregistered, attempt)
+		}
+	}
+}
+
+func tryPool(n int, opts ...actor.RouterOption) (*pool, string, error) {
 	s, err := system()
 	if err != nil {
-		return nil, err
+		return nil, "", err
 	}
 	ctx := context.Background()
 	nextID++
 	p := &pool{name: fmt.Sprintf("p%d", nextID), routees: map[int]*actor.PID{}}
 	p.pid, err = s.SpawnRouter(ctx, p.name, n, new(Routee), opts...)
 	if err != nil {
-		return nil, err
+		return nil, "", err
 	}
 	// barrier: GetRoutees is answered only after PostStart spawned the routees
 	if _, err := p.names(); err != nil {
-		return nil, err
+		return nil, "", err
 	}
 	p.v = actor.VerifRouterOf(p.pid)
 	if p.v == nil {
-		return nil, errors.New("not a router")
+		return nil, "", errors.New("not a router")
 	}
+	mapped := p.v.MapRoutees()
+	if len(mapped) != n {
+		return nil, "", fmt.Errorf("router map holds %d routees, want %d", len(mapped), n)
+	}
+	byName := map[string]*actor.PID{}
+	for _, rp := range mapped {
+		byName[rp.Name()] = rp
+	}
+	unregistered := ""
 	for i := 0; i < n; i++ {
-		rp, err := s.ActorOf(ctx, fmt.Sprintf("%sRoutee%d", p.name, i))
-		if err != nil {
-			return nil, fmt.Errorf("routee %d: %w", i, err)
+		name := fmt.Sprintf("%sRoutee%d", p.name, i)
+		rp, ok := byName[name]
+		if !ok {
+			return nil, "", fmt.Errorf("routee %d: no routee named %s in the router's map", i, name)
 		}
 		p.routees[i] = rp
+		if reg, err := s.ActorOf(ctx, name); err != nil || reg != rp {
+			if unregistered == "" {
+				unregistered = name
+			}
+		}
 	}
 	takeDeliveries()
-	return p, nil
+	return p, unregistered, nil
 }
 
 func (p *pool) names() ([]string, error) {
